@@ -27,10 +27,14 @@ theorem doOp_at (ts : Int) (h : Hook) (op : OpSpec) (st : St) : AllAt ts h.phase
   split
   · exact AllAt.nil
   · split
-    · exact AllAt.cons ⟨rfl, rfl⟩ AllAt.nil
     · split
       · exact AllAt.cons ⟨rfl, rfl⟩ AllAt.nil
       · exact AllAt.cons ⟨rfl, rfl⟩ AllAt.nil
+    · split
+      · exact AllAt.cons ⟨rfl, rfl⟩ AllAt.nil
+      · split
+        · exact AllAt.cons ⟨rfl, rfl⟩ AllAt.nil
+        · exact AllAt.cons ⟨rfl, rfl⟩ AllAt.nil
 
 theorem runOps_at (ts : Int) (h : Hook) : ∀ (ops : List OpSpec) (st : St), AllAt ts h.phase (runOps ts h ops st).1
   | [], _ => AllAt.nil
